@@ -576,6 +576,28 @@ func postprocessParsed(lookup objLookup) {
 	stripMetric("route")
 	stripMetric("ipv6 route")
 
+	// Check for incomplete route commands:
+	// - "route if_name ip_address netmask gateway_ip"
+	// - "ip route [vrf name] ip_address netmask gateway_ip|if_name"
+	// - "ipv6 route [vrf name|if_name] destination next_hop_ipv6_addr"
+	checkRoute := func(prefix string, minArgs int) {
+		for _, l := range lookup[prefix] {
+			for _, c := range l {
+				tokens := strings.Split(c.parsed, " ")
+				n := len(strings.Split(prefix, " ")) + minArgs
+				if len(tokens) > 2 && tokens[2] == "vrf" {
+					n += 2
+				}
+				if len(tokens) < n {
+					errlog.Abort("Incomplete command: %s", c.orig)
+				}
+			}
+		}
+	}
+	checkRoute("route", 4)
+	checkRoute("ip route", 3)
+	checkRoute("ipv6 route", 2)
+
 	// Normalize lines
 	// aaa-server NAME [(interface-name)] host {IP|NAME} [key] [timeout SECONDS]
 	// - strip (interface-name), key, timeout
